@@ -70,6 +70,7 @@ type rcase struct {
 	Ops  []*tyutil.Term          `json:"ops"`
 	X    xrec                    `json:"x"`
 	Want *tyutil.Term            `json:"want,omitempty"`
+	Sig  *tyutil.Term            `json:"sig,omitempty"` // call-like kinds: the function type Sig() must report (the one the callee points to)
 }
 
 func (c *rcase) key() string {
@@ -477,8 +478,12 @@ func construct(uni tyutil.Universe, c *rcase) types.Type {
 	return constructWith(tyutil.NewBuilder(uni, false), c)
 }
 
-// constructWith builds the value of the case from the types the builder hands out.
-func constructWith(b *tyutil.Builder, c *rcase) types.Type {
+// constructWith builds the value of the case from the types the builder hands out and reports its type.
+func constructWith(b *tyutil.Builder, c *rcase) types.Type { return constructValueWith(b, c).Type() }
+
+// constructValueWith builds the value of the case (instruction, terminator or constant expression)
+// with the library's constructors from the types the builder hands out.
+func constructValueWith(b *tyutil.Builder, c *rcase) typed {
 	ty := func(t *tyutil.Term) types.Type { return b.Type(t) }
 	if c.Form == "cexpr" {
 		var a []constant.Constant
@@ -487,29 +492,29 @@ func constructWith(b *tyutil.Builder, c *rcase) types.Type {
 		}
 		switch {
 		case c.Kind == "fneg":
-			return constant.NewFNeg(a[0]).Type()
+			return constant.NewFNeg(a[0])
 		case exprBin[c.Kind] != nil:
-			return exprBin[c.Kind](a[0], a[1]).Type()
+			return exprBin[c.Kind](a[0], a[1])
 		case c.Kind == "icmp":
-			return constant.NewICmp(enum.IPredEQ, a[0], a[1]).Type()
+			return constant.NewICmp(enum.IPredEQ, a[0], a[1])
 		case c.Kind == "fcmp":
-			return constant.NewFCmp(enum.FPredOEQ, a[0], a[1]).Type()
+			return constant.NewFCmp(enum.FPredOEQ, a[0], a[1])
 		case c.Kind == "extractelement":
-			return constant.NewExtractElement(a[0], constant.NewInt(ty(c.Ops[1]).(*types.IntType), 0)).Type()
+			return constant.NewExtractElement(a[0], constant.NewInt(ty(c.Ops[1]).(*types.IntType), 0))
 		case c.Kind == "insertelement":
-			return constant.NewInsertElement(a[0], a[1], constant.NewInt(ty(c.Ops[2]).(*types.IntType), 0)).Type()
+			return constant.NewInsertElement(a[0], a[1], constant.NewInt(ty(c.Ops[2]).(*types.IntType), 0))
 		case c.Kind == "shufflevector":
-			return constant.NewShuffleVector(a[0], a[1], maskConst(b, c.Ops[2])).Type()
+			return constant.NewShuffleVector(a[0], a[1], maskConst(b, c.Ops[2]))
 		case exprCast[c.Kind] != nil:
-			return exprCast[c.Kind](a[0], ty(c.X.To)).Type()
+			return exprCast[c.Kind](a[0], ty(c.X.To))
 		case c.Kind == "select":
-			return constant.NewSelect(a[0], a[1], a[2]).Type()
+			return constant.NewSelect(a[0], a[1], a[2])
 		case c.Kind == "getelementptr":
 			var is []constant.Constant
 			for i, ix := range c.X.GIdx {
 				is = append(is, gepIdxConst(ty(c.Ops[i+1]), ix))
 			}
-			return constant.NewGetElementPtr(ty(c.X.Ty), a[0], is...).Type()
+			return constant.NewGetElementPtr(ty(c.X.Ty), a[0], is...)
 		}
 		panic("no constant-expression constructor for " + c.Kind)
 	}
@@ -520,29 +525,29 @@ func constructWith(b *tyutil.Builder, c *rcase) types.Type {
 	blk := func(n string) *ir.Block { return ir.NewBlock(n) }
 	switch {
 	case c.Kind == "fneg":
-		return ir.NewFNeg(a[0]).Type()
+		return ir.NewFNeg(a[0])
 	case instBin[c.Kind] != nil:
-		return instBin[c.Kind](a[0], a[1]).Type()
+		return instBin[c.Kind](a[0], a[1])
 	case c.Kind == "icmp":
-		return ir.NewICmp(enum.IPredEQ, a[0], a[1]).Type()
+		return ir.NewICmp(enum.IPredEQ, a[0], a[1])
 	case c.Kind == "fcmp":
-		return ir.NewFCmp(enum.FPredOEQ, a[0], a[1]).Type()
+		return ir.NewFCmp(enum.FPredOEQ, a[0], a[1])
 	case c.Kind == "extractelement":
-		return ir.NewExtractElement(a[0], a[1]).Type()
+		return ir.NewExtractElement(a[0], a[1])
 	case c.Kind == "insertelement":
-		return ir.NewInsertElement(a[0], a[1], a[2]).Type()
+		return ir.NewInsertElement(a[0], a[1], a[2])
 	case c.Kind == "shufflevector":
-		return ir.NewShuffleVector(a[0], a[1], maskConst(b, c.Ops[2])).Type()
+		return ir.NewShuffleVector(a[0], a[1], maskConst(b, c.Ops[2]))
 	case c.Kind == "extractvalue":
-		return ir.NewExtractValue(a[0], uints(c.X.Idx)...).Type()
+		return ir.NewExtractValue(a[0], uints(c.X.Idx)...)
 	case c.Kind == "insertvalue":
-		return ir.NewInsertValue(a[0], a[1], uints(c.X.Idx)...).Type()
+		return ir.NewInsertValue(a[0], a[1], uints(c.X.Idx)...)
 	case c.Kind == "alloca":
 		inst := ir.NewAlloca(ty(c.X.Ty))
 		inst.AddrSpace = types.AddrSpace(c.X.AS) // the only way the API offers to place an alloca in an address space
-		return inst.Type()
+		return inst
 	case c.Kind == "load":
-		return ir.NewLoad(ty(c.X.Ty), a[0]).Type()
+		return ir.NewLoad(ty(c.X.Ty), a[0])
 	case c.Kind == "getelementptr":
 		var is []value.Value
 		for i, ix := range c.X.GIdx {
@@ -552,40 +557,40 @@ func constructWith(b *tyutil.Builder, c *rcase) types.Type {
 				is = append(is, gepIdxConst(ty(c.Ops[i+1]), ix))
 			}
 		}
-		return ir.NewGetElementPtr(ty(c.X.Ty), a[0], is...).Type()
+		return ir.NewGetElementPtr(ty(c.X.Ty), a[0], is...)
 	case c.Kind == "cmpxchg":
-		return ir.NewCmpXchg(a[0], a[1], a[2], enum.AtomicOrderingSequentiallyConsistent, enum.AtomicOrderingSequentiallyConsistent).Type()
+		return ir.NewCmpXchg(a[0], a[1], a[2], enum.AtomicOrderingSequentiallyConsistent, enum.AtomicOrderingSequentiallyConsistent)
 	case c.Kind == "atomicrmw":
 		op := map[string]enum.AtomicOp{"xchg": enum.AtomicOpXChg, "add": enum.AtomicOpAdd, "fadd": enum.AtomicOpFAdd}[c.X.Op]
-		return ir.NewAtomicRMW(op, a[0], a[1], enum.AtomicOrderingSequentiallyConsistent).Type()
+		return ir.NewAtomicRMW(op, a[0], a[1], enum.AtomicOrderingSequentiallyConsistent)
 	case instCast[c.Kind] != nil:
-		return instCast[c.Kind](a[0], ty(c.X.To)).Type()
+		return instCast[c.Kind](a[0], ty(c.X.To))
 	case c.Kind == "phi":
-		return ir.NewPhi(ir.NewIncoming(a[0], blk("entry"))).Type()
+		return ir.NewPhi(ir.NewIncoming(a[0], blk("entry")))
 	case c.Kind == "select":
-		return ir.NewSelect(a[0], a[1], a[2]).Type()
+		return ir.NewSelect(a[0], a[1], a[2])
 	case c.Kind == "freeze":
-		return ir.NewInstFreeze(a[0]).Type()
+		return ir.NewInstFreeze(a[0])
 	case c.Kind == "va_arg":
-		return ir.NewVAArg(a[0], ty(c.X.Ty)).Type()
+		return ir.NewVAArg(a[0], ty(c.X.Ty))
 	case c.Kind == "call":
-		return ir.NewCall(calleeValue(c, ty, a[0]), a[1:]...).Type()
+		return ir.NewCall(calleeValue(c, ty, a[0]), a[1:]...)
 	case c.Kind == "invoke":
-		return ir.NewInvoke(calleeValue(c, ty, a[0]), a[1:], blk("ok"), blk("lp")).Type()
+		return ir.NewInvoke(calleeValue(c, ty, a[0]), a[1:], blk("ok"), blk("lp"))
 	case c.Kind == "callbr":
 		callee := ir.NewInlineAsm(ty(c.Ops[0]), "", "=r,X")
 		f := ir.NewFunc("f", types.Void)
 		t := blk("t")
-		return ir.NewCallBr(callee, []value.Value{constant.NewBlockAddress(f, t)}, blk("ok"), t).Type()
+		return ir.NewCallBr(callee, []value.Value{constant.NewBlockAddress(f, t)}, blk("ok"), t)
 	case c.Kind == "landingpad":
-		return ir.NewLandingPad(ty(c.X.Ty)).Type()
+		return ir.NewLandingPad(ty(c.X.Ty))
 	case c.Kind == "catchswitch":
-		return ir.NewCatchSwitch(&constant.NoneToken{}, []*ir.Block{blk("cp")}, nil).Type()
+		return ir.NewCatchSwitch(&constant.NoneToken{}, []*ir.Block{blk("cp")}, nil)
 	case c.Kind == "catchpad":
 		cs := ir.NewCatchSwitch(&constant.NoneToken{}, []*ir.Block{blk("cp")}, nil)
-		return ir.NewCatchPad(cs).Type()
+		return ir.NewCatchPad(cs)
 	case c.Kind == "cleanuppad":
-		return ir.NewCleanupPad(&constant.NoneToken{}).Type()
+		return ir.NewCleanupPad(&constant.NoneToken{})
 	}
 	panic("no constructor for " + c.Kind)
 }
@@ -651,7 +656,16 @@ func locateIn(f *ir.Func, c *rcase) (typed, error) {
 // type objects reported case by case once more at the very end. "printed" is llvm-as's verdict
 // on the batch module as the library prints it (every use spelled with the reported type).
 var sites = []string{"constructor", "parser", "recomputed", "constructor+reread", "parser+reread", "recomputed+reread",
-	"parser(batch)", "recomputed(batch)", "constructor(batch)", "printed(batch)", "printed+recomputed(batch)"}
+	"parser(batch)", "recomputed(batch)", "constructor(batch)", "printed(batch)", "printed+recomputed(batch)",
+	"sig(constructor)", "sig(parser)"}
+
+// The sig sites observe Sig() of call / invoke / callbr: the function type the callee operand points
+// to (TypesRes!CallSig); their required value is the case's Sig, not its Want.
+func isSigSite(s string) bool { return strings.HasPrefix(s, "sig(") }
+
+type sigger interface{ Sig() *types.FuncType }
+
+var callLike = map[string]bool{"call": true, "invoke": true, "callbr": true}
 
 // baseSite is the case-by-case site a batch or re-read site repeats.
 func baseSite(site string) string {
@@ -664,6 +678,12 @@ func baseSite(site string) string {
 }
 
 func siteName(c *rcase, site string) string {
+	if site == "sig(constructor)" {
+		return "Sig() of the constructed value"
+	}
+	if site == "sig(parser)" {
+		return "Sig() of the parsed value"
+	}
 	if i := strings.Index(site, "+reread"); i >= 0 {
 		return siteName(c, site[:i]) + " (type object re-read after all cases)"
 	}
@@ -690,6 +710,13 @@ func siteName(c *rcase, site string) string {
 		return "asm"
 	}
 	return pkg + ".Type() on the parsed value"
+}
+
+func wantAt(c *rcase, site string) *tyutil.Term {
+	if isSigSite(site) {
+		return c.Sig
+	}
+	return c.Want
 }
 
 type result struct {
@@ -723,6 +750,14 @@ func evaluate(uni tyutil.Universe, c *rcase, valid bool) *result {
 		})
 		if v != nil && tyutil.ClearTyp(v) {
 			r.out["recomputed"] = tyutil.Observe(func() (types.Type, error) { return v.Type(), nil })
+		}
+		if callLike[c.Kind] && c.Sig != nil {
+			r.out["sig(constructor)"] = tyutil.Observe(func() (types.Type, error) {
+				return constructValueWith(tyutil.NewBuilder(uni, false), c).(sigger).Sig(), nil
+			})
+			if sv, ok := v.(sigger); ok {
+				r.out["sig(parser)"] = tyutil.Observe(func() (types.Type, error) { return sv.Sig(), nil })
+			}
 		}
 	}
 	return r
@@ -988,7 +1023,11 @@ func process(rep *mbt.Report, uni tyutil.Universe, cases []*rcase) {
 	batch(rep, uni, results, ok)
 	for _, r := range results {
 		for _, s := range sites {
-			r.class[s] = r.out[s].Class(r.c.Want)
+			want := r.c.Want
+			if isSigSite(s) {
+				want = r.c.Sig
+			}
+			r.class[s] = r.out[s].Class(want)
 		}
 	}
 	// group the failures: site x kind x difference class; the plainest failing case names the group
@@ -1041,7 +1080,7 @@ func process(rep *mbt.Report, uni tyutil.Universe, cases []*rcase) {
 		for _, r := range g.rs {
 			rep.Fail(mbt.Failure{Signature: sig,
 				What: fmt.Sprintf("%s: %s must have type %s, got %s (plainest failing case of this class: %s, required %s, got %s)",
-					siteName(r.c, site), r.c.key(), r.c.Want.LL(), r.out[site], min.c.key(), min.c.Want.LL(), min.out[site]),
+					siteName(r.c, site), r.c.key(), wantAt(r.c, site).LL(), r.out[site], min.c.key(), wantAt(min.c, site).LL(), min.out[site]),
 				Case: map[string]interface{}{"site": site, "defs": uni, "case": r.c, "minimal": min.c}})
 		}
 	}
@@ -1076,6 +1115,7 @@ func Run(tier, replay string) {
 		rep.Sample(map[string]interface{}{"case": cases[k].key(), "required_type": cases[k].Want.LL()})
 	}
 	process(rep, uni, cases)
+	histories(rep, tier)
 	rep.Exhaustive = true
 	rep.Explanation = "exhaustive over the finite case sets of TypesRes.tla for this tier (every value-producing instruction and terminator kind of LLVM 14, every constant-expression kind the library represents, the operand shapes listed in the module); getelementptr appears with plain index forms (its index forms are studied by C07); pointer operands range over address spaces 0, 1 (thorough: 5); operand shapes outside Shapes are not covered"
 	rep.Assumptions = []string{
@@ -1092,6 +1132,7 @@ func runReplay(rep *mbt.Report, path string) {
 				Defs map[string]*tyutil.Body `json:"defs"`
 				Case *rcase                  `json:"case"`
 				Min  *rcase                  `json:"minimal"`
+				Hist *hcase                  `json:"hist"`
 			} `json:"case"`
 		} `json:"failures"`
 	}
@@ -1102,6 +1143,21 @@ func runReplay(rep *mbt.Report, path string) {
 	var cases []*rcase
 	var uni tyutil.Universe
 	seen := map[string]bool{}
+	var hs []*hcase
+	for _, f := range one.Failures {
+		if f.Case.Hist != nil {
+			uni = tyutil.Universe(f.Case.Defs)
+			if k := f.Case.Hist.hkey(); !seen[k] {
+				seen[k] = true
+				hs = append(hs, f.Case.Hist)
+			}
+		}
+	}
+	if len(hs) > 0 {
+		tyutil.AliasDefs = uni
+		runHistories(rep, uni, hs)
+		return
+	}
 	for _, f := range one.Failures {
 		if f.Case.Case == nil {
 			continue
